@@ -29,6 +29,11 @@ for pid in props:
     else:
         na.append({"property_id": pid, "reason": t.get("reason", "not yet built (contract-based check under construction; see DESIGN.md section 8)")})
 
+# hook commits: every commit of /repo whose message starts "verif:" (guarded, comment-only or tag-verif files)
+import subprocess
+log = subprocess.run(["git", "-C", "/repo", "log", "--reverse", "--format=%h %s"], capture_output=True, text=True).stdout.splitlines()
+tab["hooks"]["source_commits"] = [l.split()[0] for l in log if l.split(" ", 1)[1].startswith("verif:")]
+
 m = {
     "version": 1,
     "setup_cmd": f"cd /verif/govc && {ENV} go build -o ../bin/govc . && cd /repo && {ENV} go build -tags verif ./...",
